@@ -200,7 +200,7 @@ def length_mismatch(ctx, chi):
 
 def run(ctx):
     chi = core.import_chi()
-    n_cases = 400 if ctx.tier == 'quick' else 6000
+    n_cases = 400 if ctx.tier == 'quick' else 20000
     length_mismatch(ctx, chi)
     # boundary corpus first
     corpus = [('CM', [1.0, 0.5], [2.0, 1.0, 3.0], [2.5, 0.5, 3.0]),
